@@ -67,9 +67,7 @@ Proof. exact schmidt_number_rejects. Qed.
 Theorem C11_svd_link : forall n M sv,
   is_svd n M sv ->
   sv_norm_squared n sv = trG ROps n M /\ sv_kinv n sv = trG2 ROps n M /\ schmidt_of_sv n sv = schmidt_K ROps n M.
-Proof.
-  exact (fun n M sv H => conj (proj1 (svd_power_sums n M sv H)) (conj (proj2 (svd_power_sums n M sv H)) (schmidt_of_sv_trace n M sv H))).
-Qed.
+Proof. exact svd_link. Qed.
 
 (* 1 <= K <= n for every matrix that is not identically zero (and the division is then defined) *)
 Theorem C11_bounds : forall n M, nonzero_matrix n M -> 0 < trG2 ROps n M /\ 1 <= schmidt_K ROps n M <= INR n.
@@ -130,7 +128,7 @@ Theorem C11_exec_twin : forall n mags,
   Q2R (schmidt_K_Q n mags) = schmidt_K ROps n (mat_of n (Rmags mags)) /\
   Q2R (trG_Q n mags) = trG ROps n (mat_of n (Rmags mags)) /\
   Q2R (trG2_Q n mags) = trG2 ROps n (mat_of n (Rmags mags)).
-Proof. exact (fun n mags H => conj (schmidt_K_Q_correct n mags H) (conj (trG_Q_correct n mags) (trG2_Q_correct n mags))). Qed.
+Proof. exact exec_twin_correct. Qed.
 
 (* ---- non-vacuity *)
 Example C11_nonvacuous_nonzero : nonzero_matrix 2 (outer (fun _ => 1) (fun _ => 2)).
